@@ -74,6 +74,94 @@ def run(chk, tier):
                 "the loop-variable name must be read off the bytecode by an interpreter WITHOUT bindings and without resolving "
                 "(otherwise an outer variable of the same name captures it): expected %s, found %s" % (want, [e for e in ex if "run_raw" in e]), ei.file)
 
+    # ---------------- R07.5 the macros ARE their defining folds on short lists (exhaustive symbolic tables)
+    chk.rule("R07.5", "for lists of 0..3 elements and EVERY assignment of outcomes (truthy / falsy / failing / value) to the body evaluations, the macro visits the elements in order, "
+                      "evaluates exactly the bodies the defining fold with early exit evaluates, binds the loop variable (and for reduce the previous result) as the fold does, stops "
+                      "where it stops and returns what it returns - by symbolic execution of the implementation against the fold generated from the property")
+    import macrotab
+    nrows = 0
+    exact = {}
+    for mac in macrotab.TARGETS:
+        for n_ in range(0, 4 if tier != "thorough" else 5):
+            key = "%s|%d element%s" % (mac, n_, "" if n_ == 1 else "s")
+            try:
+                got, junk = macrotab.extract(F, mac, n_)
+            except Exception as e_:             # symbolic execution did not finish / unknown construct: fail closed
+                chk.bad("R07.5", key, "the macro implementation could not be executed symbolically: %s: %s" % (type(e_).__name__, str(e_)[:120]), "rscel/src/context/default_macros")
+                continue
+            want = macrotab.model(mac, n_)
+            nrows += len(got)
+            if got == want:
+                exact.setdefault(mac, []).append(True)
+                chk.ok("R07.5", key, {"behaviours": len(got)})
+            else:
+                extra = sorted(got - want, key=str)[:2]
+                missing = sorted(want - got, key=str)[:2]
+                chk.bad("R07.5", key, "%s over a list of %d: the implementation and the defining fold disagree; implementation only: %s; fold only: %s   "
+                                      "(p = predicate / body, f = transform; outcomes T truthy, F falsy, E fails, V value)"
+                        % (mac, n_, [macrotab.describe(r_) for r_ in extra], [macrotab.describe(r_) for r_ in missing]), "rscel/src/context/default_macros")
+    chk.floor("R07.5", "behaviours compared", nrows, 120)
+    # ---------------- R07.6 the map-container variants are the list variants over the sorted keys
+    chk.rule("R07.6", "filter / map over a MAP run exactly the per-element logic of their list variant (same body evaluations, same stopping, same collected values), "
+                      "with the element being a key taken from the SORTED list of the map's keys")
+    import symex as _sx
+    sib_ok = {}
+    for mv, lv, nb in (("filter::filter_map", "filter::filter_list", 0), ("map::map_map", "map::map_list", 2), ("map::map_map", "map::map_list", 3)):
+        rows_ = {}
+        elem_ = {}
+        for nm_ in (mv, lv):
+            fb_ = F.body(PFX + nm_)
+            itx = _sx.Interp(F, macrotab.MacroPolicy())
+            blocks_ = ("seq", tuple(_sx.U("b%d" % i_) for i_ in range(nb))) if nb else _sx.U("b1")
+            out_ = set()
+            els = set()
+            try:
+                res_ = itx.run(fb_, [_sx.U("ctx"), _sx.U("m", fb_.local_ty(2)), _sx.U("name"), blocks_])
+            except Exception as e_:
+                chk.bad("R07.6", "%s|extract" % nm_, "symbolic execution failed: %s" % str(e_)[:100], fb_.file)
+                res_ = []
+            for st_, r_ in res_:
+                binds = [e_[2][-1] for e_ in st_.trace if e_[0] == "call" and e_[1] == "bind_param" and e_[2]]
+                els.update(binds)
+                rr_ = _sx.render(_sx.deep(st_, r_))
+                for el in sorted(binds, key=len, reverse=True):
+                    rr_ = rr_.replace(el, "ELEM")
+                conds_ = tuple(sorted([(str(c[3]), c[2]) for c in st_.cond if c[0] == "variant" and "run_raw#" in str(c[3])] +
+                                      [(str(c[1]), c[0]) for c in st_.cond if c[0] in ("eq", "ne") and "is_truthy" in str(c[1])]))
+                calls_ = tuple((e_[1], e_[2][1] if e_[1] == "run_raw" and len(e_[2]) > 1 else "") for e_ in st_.trace if e_[0] == "call" and e_[1] in ("run_raw", "bind_param", "new_child"))
+                out_.add((conds_, calls_, re.sub(r"\*m\b", "ELEM", rr_)[:200]))
+            rows_[nm_] = out_
+            elem_[nm_] = els
+        key_ = "%s ~ %s%s" % (mv, lv, " (%d blocks)" % nb if nb else "")
+        sorted_keys = bool(elem_[mv]) and all(re.search(r"slice::sort(_unstable)?!?\(", e_) and re.search(r"HashMap::(into_keys|keys)\(m\)", e_) for e_ in elem_[mv])
+        if rows_[mv] == rows_[lv] and rows_[mv] and sorted_keys:
+            chk.ok("R07.6", key_, {"rows": len(rows_[mv])})
+            sib_ok.setdefault(mv, []).append(True)
+        else:
+            chk.bad("R07.6", key_, "the map variant and the list variant differ per element, or the keys are not sorted first: map-only rows %s, list-only rows %s, element %s"
+                    % (sorted(rows_[mv] - rows_[lv], key=str)[:2], sorted(rows_[lv] - rows_[mv], key=str)[:2], sorted(elem_[mv])[:1]), F.body(PFX + mv).file)
+            sib_ok.setdefault(mv, []).append(False)
+    # functions whose per-element behaviour is decided exactly by R07.5 / R07.6: the CFG heuristics below are then implied
+    MAC2FN = {"all": "all::all_impl", "exists": "exists::exists_impl", "exists_one": "exists_one::exists_one_impl", "filter": "filter::filter_list", "map": "map::map_list",
+              "map3": "map::map_list", "reduce": "reduce::reduce_impl"}
+    covered = set()
+    for mac_, fn_ in MAC2FN.items():
+        if len(exact.get(mac_, [])) >= 4 and all(exact[mac_]):
+            covered.add(fn_)
+    if not (len(exact.get("map", [])) >= 4 and len(exact.get("map3", [])) >= 4):
+        covered.discard("map::map_list")
+    for mv in ("filter::filter_map", "map::map_map"):
+        lv = mv.replace("_map", "_list")
+        if sib_ok.get(mv) and all(sib_ok[mv]) and lv in covered:
+            covered.add(mv)
+    HEUR = ("body evaluation", "order", "body failure", "truthiness", "polarity", "collected values", "accumulator threading", "binds the element")
+
+    def hbad(rule, key, msg, loc):
+        fn_, _, what = key.partition("|")
+        if fn_ in covered and what in HEUR:
+            return              # decided exactly by the symbolic tables; the CFG pattern is only a second opinion
+        chk.bad(rule, key, msg, loc)
+
     for name, spec in list(ENTRY.items()) + list(LOOPS.items()):
         b = F.body(PFX + name)
         q = mirq.BodyQ(b)
@@ -137,23 +225,23 @@ def run(chk, tier):
         flags = set(lib.op_const_int(t["args"][2]) for i, t in loop_rr)
         recvs = set(mirq.expr_of(q, t["args"][0]) for i, t in loop_rr)
         if bodies != sorted(spec["body"]) or flags != {1} or recvs != {nce}:
-            chk.bad("R07.1", name + "|body evaluation", "%s: per element run_raw must evaluate %s with resolve=true on the child interpreter; found bodies %s flags %s receivers %s" % (name, spec["body"], bodies, flags, recvs), b.file)
+            hbad("R07.1", name + "|body evaluation", "%s: per element run_raw must evaluate %s with resolve=true on the child interpreter; found bodies %s flags %s receivers %s" % (name, spec["body"], bodies, flags, recvs), b.file)
             good = False
         # dominance order: every bind_param dominates new_child dominates every in-loop run_raw
         for (i, t, p) in bp:
             if not b.dominates(i, nc[0][0]):
-                chk.bad("R07.1", name + "|order", "%s: the element is bound after the child interpreter was created (bind_param must dominate new_child)" % name, b.file)
+                hbad("R07.1", name + "|order", "%s: the element is bound after the child interpreter was created (bind_param must dominate new_child)" % name, b.file)
                 good = False
         for i, t in loop_rr:
             if not b.dominates(nc[0][0], i):
-                chk.bad("R07.1", name + "|order", "%s: a body evaluation is not dominated by new_child" % name, b.file)
+                hbad("R07.1", name + "|order", "%s: a body evaluation is not dominated by new_child" % name, b.file)
                 good = False
             ve = q.variant_edges(i)
             if ve is None:
-                chk.bad("R07.1", name + "|body failure", "%s: run_raw result not matched" % name, b.file)
+                hbad("R07.1", name + "|body failure", "%s: run_raw result not matched" % name, b.file)
                 good = False
             elif head in q.reach(ve["Err"]):
-                chk.bad("R07.1", name + "|body failure", "%s: after a failing body the loop continues with the next element (a body failure must make the macro fail at once)" % name, b.file)
+                hbad("R07.1", name + "|body failure", "%s: after a failing body the loop continues with the next element (a body failure must make the macro fail at once)" % name, b.file)
                 good = False
         if good:
             chk.ok("R07.1", name + "|skeleton", {"bodies": bodies, "child": nce})
@@ -184,7 +272,7 @@ def run(chk, tier):
         if short in ("all", "exists", "exists_one", "filter") or (short == "map"):
             need = 1
             if len(tr) != need:
-                chk.bad("R07.2", name + "|truthiness", "%s: expected %d truthiness test of the body result inside the loop, found %d" % (name, need, len(tr)), b.file)
+                hbad("R07.2", name + "|truthiness", "%s: expected %d truthiness test of the body result inside the loop, found %d" % (name, need, len(tr)), b.file)
                 continue
             ti, tt = tr[0]
             # the switch on the bool result
@@ -201,7 +289,7 @@ def run(chk, tier):
                     break
                 cur = s[0]
             if sw is None:
-                chk.bad("R07.2", name + "|truthiness", "truthiness result is not branched on", b.file)
+                hbad("R07.2", name + "|truthiness", "truthiness result is not branched on", b.file)
                 continue
             sblk, st = sw
             # which edge is 'truthy': the switch tests either the bool or its negation
@@ -242,7 +330,7 @@ def run(chk, tier):
             if okp:
                 chk.ok("R07.2", name + "|polarity", {"truthy_returns": sorted(tc), "falsy_returns": sorted(fc), "negated_test": negated})
             else:
-                chk.bad("R07.2", name + "|polarity", msg + " (truthy edge: returns %s continues=%s; falsy edge: returns %s continues=%s)" % (sorted(tc), t_cont, sorted(fc), f_cont), b.file)
+                hbad("R07.2", name + "|polarity", msg + " (truthy edge: returns %s continues=%s; falsy edge: returns %s continues=%s)" % (sorted(tc), t_cont, sorted(fc), f_cont), b.file)
         if short == "map":
             # the 2-argument form pushes every body result; the 3-argument form pushes bytecode[2]'s result
             pv = sorted(mirq.expr_of(q, t["args"][1]) for (i, t, p) in q.call_sites(r"Vec::<T, A>::push$") if in_loop(i))
@@ -250,7 +338,7 @@ def run(chk, tier):
             if pv == want:
                 chk.ok("R07.2", name + "|collected values", pv)
             else:
-                chk.bad("R07.2", name + "|collected values", "%s must collect the mapper's result (bytecode[1] in the 2-argument form, bytecode[2] in the 3-argument form): %s" % (name, pv), b.file)
+                hbad("R07.2", name + "|collected values", "%s must collect the mapper's result (bytecode[1] in the 2-argument form, bytecode[2] in the 3-argument form): %s" % (name, pv), b.file)
         if short == "reduce":
             seed = "Interpreter::run_raw(p1, p3[3], 1)"
             step = "Interpreter::run_raw(%s, p3[2], 1)" % nce
@@ -262,40 +350,15 @@ def run(chk, tier):
             if seed in exprs and ok_acc and ok_nxt and bound_names == want_names:
                 chk.ok("R07.2", name + "|accumulator threading", {"acc": acc[0][:120], "next": nxtv})
             else:
-                chk.bad("R07.2", name + "|accumulator threading", "reduce(): the accumulator must start as the seed (bytecode[3] on the caller's interpreter) and then be each step's result, bound to the first name; the element is bound to the second name. acc=%s next=%s" % (acc, nxtv), b.file)
+                hbad("R07.2", name + "|accumulator threading", "reduce(): the accumulator must start as the seed (bytecode[3] on the caller's interpreter) and then be each step's result, bound to the first name; the element is bound to the second name. acc=%s next=%s" % (acc, nxtv), b.file)
         elif spec["kind"] == "list":
             evs = [v for v in bound_vals]
             if len(evs) == 1 and re.match(r"^Iterator::next\(p2(\.List\.0)?\)\.Some\.0$", evs[0]):
                 chk.ok("R07.1", name + "|binds the element", evs[0])
             else:
-                chk.bad("R07.1", name + "|binds the element", "%s must bind the loop variable to the current element, binds %s" % (name, evs), b.file)
+                hbad("R07.1", name + "|binds the element", "%s must bind the loop variable to the current element, binds %s" % (name, evs), b.file)
     chk.floor("R07.1", "loop functions", len(LOOPS), 8)
     chk.analysed = {"loop_functions": sorted(LOOPS), "entry_functions": sorted(ENTRY)}
-    # ---------------- R07.5 the macros ARE their defining folds on short lists (exhaustive symbolic tables)
-    chk.rule("R07.5", "for lists of 0..3 elements and EVERY assignment of outcomes (truthy / falsy / failing / value) to the body evaluations, the macro visits the elements in order, "
-                      "evaluates exactly the bodies the defining fold with early exit evaluates, binds the loop variable (and for reduce the previous result) as the fold does, stops "
-                      "where it stops and returns what it returns - by symbolic execution of the implementation against the fold generated from the property")
-    import macrotab
-    nrows = 0
-    for mac in macrotab.TARGETS:
-        for n_ in range(0, 4 if tier != "thorough" else 5):
-            key = "%s|%d element%s" % (mac, n_, "" if n_ == 1 else "s")
-            try:
-                got, junk = macrotab.extract(F, mac, n_)
-            except Exception as e_:             # symbolic execution did not finish / unknown construct: fail closed
-                chk.bad("R07.5", key, "the macro implementation could not be executed symbolically: %s: %s" % (type(e_).__name__, str(e_)[:120]), "rscel/src/context/default_macros")
-                continue
-            want = macrotab.model(mac, n_)
-            nrows += len(got)
-            if got == want:
-                chk.ok("R07.5", key, {"behaviours": len(got)})
-            else:
-                extra = sorted(got - want, key=str)[:2]
-                missing = sorted(want - got, key=str)[:2]
-                chk.bad("R07.5", key, "%s over a list of %d: the implementation and the defining fold disagree; implementation only: %s; fold only: %s   "
-                                      "(p = predicate / body, f = transform; outcomes T truthy, F falsy, E fails, V value)"
-                        % (mac, n_, [macrotab.describe(r_) for r_ in extra], [macrotab.describe(r_) for r_ in missing]), "rscel/src/context/default_macros")
-    chk.floor("R07.5", "behaviours compared", nrows, 120)
     return chk.finish(
         "Skeleton, polarity, private-copy and order clauses of the six comprehension macros extracted from MIR: expression trees of call operands, dominance "
         "between bind_param / new_child / run_raw, reachability of the loop head from the truthy / falsy / failure edges, constants returned on early exits. "
